@@ -7,59 +7,59 @@ ROOT = os.path.dirname(os.path.dirname(os.path.abspath(__file__)))
 
 # id -> (technique, level text, level note, design ref)
 CLAIMED = {
- "C01": ("forward dataflow over go/cfg of the writers' byte accounting; SSA check of ReadLine fragment joining; constant agreement of record markers and Phred offsets between writer and reader",
-         "Decides, on every path, that each emitting call's byte count reaches the returned count at every success return (fasta/fastq writers), that both readers join ReadLine fragments before classifying and never retain bufio's buffer, and that writer and reader agree on the record-marker and Phred-offset constants. These are necessary conditions of the round trip and of the byte-count clause; equality of the parsed records is value-level and not decided.",
+ "C01": ("forward dataflow over go/cfg of the writers' byte accounting; SSA check of ReadLine fragment joining; constant agreement of record markers and Phred offsets between writer and reader; cutset-trim rule on the classified record prefix",
+         "Decides, on every path, that each emitting call's byte count reaches the returned count at every success return (fasta/fastq writers), that both readers join ReadLine fragments before classifying and never retain bufio's buffer, and that writer and reader agree on the record-marker and Phred-offset constants. These are necessary conditions of the round trip and of the byte-count clause; equality of the parsed records is value-level and not decided. Also decides that the FASTA prefix is stripped by length, not by a cutset trim.",
          "fmt/io writers report the bytes written; returns inside `if err != nil` are error exits", "DESIGN.md §2.C/D/J, §4/C01"),
- "C02": ("AST+types rule on the 1-based/0-based conversion pair at every parse and format site of package gff; forward dataflow over go/cfg of the bed/gff writers' byte accounting (incl. deferred closures)",
-         "Decides that every start coordinate parsed from GFF text goes through feat.OneToZero and every start written goes through feat.ZeroToOne, ends through neither (all paths, all sites), and that the bed/gff writers' returned count includes every emitted byte on every success path. Field-by-field equality after a round trip is not decided.",
+ "C02": ("AST+types rule on the 1-based/0-based conversion pair at every parse and format site of package gff; forward dataflow over go/cfg of the bed/gff writers' byte accounting (incl. deferred closures); interprocedural bufio buffer-view lifetime analysis; zero-colour test rule for the BED writer",
+         "Decides that every start coordinate parsed from GFF text goes through feat.OneToZero and every start written goes through feat.ZeroToOne, ends through neither (all paths, all sites), and that the bed/gff writers' returned count includes every emitted byte on every success path. Field-by-field equality after a round trip is not decided. Also decides that no view of bufio's buffer is used after the next read or stored, and that the BED writer's \"0\" colour test includes alpha.",
          "start/end fields are those the Start()/End() methods return; feat.OneToZero/ZeroToOne bodies are trusted", "DESIGN.md §2.D/E, §4/C02"),
- "C03": ("SSA dominance analysis of field-count guards before constant column indices (with helper summaries and entry bounds); call-graph reachability of non-error panics from functions deferring a recover-to-error converter, with call-site exclusion of `param == const` preconditions",
-         "Decides for all inputs that no constant column access in the BED/GFF parsers can be out of range, and that every explicit panic reachable from a parser that converts panics to errors carries an error value (or its triggering argument value is excluded at the call site). Termination, nil dereferences and type assertions are not decided.",
+ "C03": ("SSA dominance analysis of field-count guards before constant column indices (with helper summaries and entry bounds); call-graph reachability of non-error panics from functions deferring a recover-to-error converter, with call-site exclusion of `param == const` preconditions; EOF path exploration for non-terminating read loops; dominance of the FASTQ length check over quality stores",
+         "Decides for all inputs that no constant column access in the BED/GFF parsers can be out of range, and that every explicit panic reachable from a parser that converts panics to errors carries an error value (or its triggering argument value is excluded at the call site). Termination, nil dereferences and type assertions are not decided. Also decides that the BED/GFF read loops cannot spin at end of input and that FASTQ quality scores are stored only after the length comparison.",
          "vectors come from bytes|strings.Split*/Fields; runtime panics other than field indexing are out of scope", "DESIGN.md §2.A/B, §4/C03"),
- "C04": ("edge-sensitive forward search over the SSA CFG along branches consistent with err == io.EOF; taint flow from ReadBytes to splitters through trims; SSA shape check of ReadLine fragment joining",
-         "Decides that no line reader can return past the bytes delivered together with io.EOF without looking at them (final record never dropped), that every BED/GFF line is CR/whitespace-trimmed before splitting, and that FASTA/FASTQ readers join long-line fragments. Record equality under re-wrapping is not decided.",
+ "C04": ("edge-sensitive forward search over the SSA CFG along branches consistent with err == io.EOF; taint flow from ReadBytes to splitters through trims; SSA shape check of ReadLine fragment joining; bufio buffer-view lifetime analysis; EOF path exploration for records returned together with io.EOF",
+         "Decides that no line reader can return past the bytes delivered together with io.EOF without looking at them (final record never dropped), that every BED/GFF line is CR/whitespace-trimmed before splitting, and that FASTA/FASTQ readers join long-line fragments. Record equality under re-wrapping is not decided. Also decides that no buffer view outlives the next read and that the final unterminated record is not returned together with io.EOF.",
          "bufio.Reader semantics of ReadBytes/ReadLine", "DESIGN.md §2.C, §4/C04"),
- "C05": ("ownership classification (FRESH / ALIAS(receiver|param) / UNKNOWN) of every slice-typed field of each Clone() result, with element-wise deep-freshness; data dependence of the per-row offset on the loop's row variable in Multi.RevComp/Reverse",
-         "Decides that no Clone() of the seven sequence containers shares a letter/row/annotation backing array with its receiver (the 'independent deep copy' clause) and that the offset each row receives when a multiple alignment is reversed depends on that row (necessary for mirroring ragged rows about the alignment's span). The reversal algebra itself (involution, complement, quality travel) is value-level and not decided.",
+ "C05": ("ownership classification (FRESH / ALIAS(receiver|param) / UNKNOWN) of every slice-typed field of each Clone() result, with element-wise deep-freshness; data dependence of the per-row offset on the loop's row variable in Multi.RevComp/Reverse; loop-invariance of the alignment span in the row loop",
+         "Decides that no Clone() of the seven sequence containers shares a letter/row/annotation backing array with its receiver (the 'independent deep copy' clause) and that the offset each row receives when a multiple alignment is reversed depends on that row (necessary for mirroring ragged rows about the alignment's span). The reversal algebra itself (involution, complement, quality travel) is value-level and not decided. Also decides that the span rows are mirrored about is taken before the loop moves any row.",
          "append(T(nil),..)/make/X.Make/Clone() allocate; interface and func typed fields are shared by design", "DESIGN.md §2.F/G, §4/C05"),
- "C06": ("ownership classification of every SetSlice argument in sequtils (fresh destination unless dst == src); must-pass dataflow over go/cfg for Compose's scratch reverser",
-         "Decides that when destination and source differ the storage installed in the destination (and handed to the scratch reverser) is newly allocated in Join/Truncate/Stitch/Compose, and that every iteration of Compose that appends a reversed segment installed and reversed *that* segment. Positional correctness of slice bounds, Stitch's merge and Trim's optimality are not decided.",
+ "C06": ("ownership classification of every SetSlice argument in sequtils (fresh destination unless dst == src); must-pass dataflow over go/cfg for Compose's scratch reverser; dataflow rule on Stitch's running end",
+         "Decides that when destination and source differ the storage installed in the destination (and handed to the scratch reverser) is newly allocated in Join/Truncate/Stitch/Compose, and that every iteration of Compose that appends a reversed segment installed and reversed *that* segment. Positional correctness of slice bounds, Stitch's merge and Trim's optimality are not decided. Also decides that Stitch's extend-or-open test reads the running end it updates.",
          "alphabet.Slice.Make allocates; Append/Copy stay in their receiver's storage or a grown copy", "DESIGN.md §2.F/G, §4/C06"),
- "C07": ("retention analysis: no slice-typed caller value (nor a loop-reused scratch buffer) reaches receiver storage in AppendColumns/AppendEach, with type-resolved per-method retention summaries; clone deep-freshness as C05",
-         "Decides the 'without retaining the caller's buffers' clause for the seven append methods and the 'Clone is deep' clause. Row/column view equality, Delete/Flush/Subseq semantics and consensus are value-level and not decided.",
+ "C07": ("retention analysis: no slice-typed caller value (nor a loop-reused scratch buffer) reaches receiver storage in AppendColumns/AppendEach, with type-resolved per-method retention summaries; clone deep-freshness as C05; per-iteration allocation rule for slices installed inside loops (AppendColumns/AppendEach, Flush)",
+         "Decides the 'without retaining the caller's buffers' clause for the seven append methods and the 'Clone is deep' clause. Row/column view equality, Delete/Flush/Subseq semantics and consensus are value-level and not decided. Also decides that columns/rows installed in a loop are not carved from a shared buffer.",
          "append(dst, xs...) copies elements; it retains xs only when the elements are themselves slices", "DESIGN.md §2.F, §4/C07"),
- "C09": ("typed-AST sibling comparison of the generated Letters/QLetters aligner variants; sibling agreement on argument validation; SSA sign-check (dominance) analysis of letter-index values before subscript use",
-         "Decides that the six Letters/QLetters variant pairs are the same program modulo element access (type independence), that all twelve variants and six entry points perform the full argument validation, and that no letter index can be used as a subscript before its sign was checked (illegal letters give an error, not a panic). Path monotonicity, score bookkeeping and Format are value-level and not decided.",
+ "C09": ("typed-AST sibling comparison of the generated Letters/QLetters aligner variants; sibling agreement on argument validation; SSA sign-check (dominance) analysis of letter-index values before subscript use; linear-form proof that validation loops sweep the whole sequence; dimension (stride) analysis of flattened-matrix subscripts",
+         "Decides that the six Letters/QLetters variant pairs are the same program modulo element access (type independence), that all twelve variants and six entry points perform the full argument validation, and that no letter index can be used as a subscript before its sign was checked (illegal letters give an error, not a panic). Path monotonicity, score bookkeeping and Format are value-level and not decided. Also decides that reference-letter indices select rows and query-letter indices columns of the flattened matrix in every subscript.",
          "alphabet.Index holds -1 for letters outside the alphabet; a validation loop's bounds are not checked", "DESIGN.md §2.H/I, §4/C09"),
- "C10": ("SSA sign-check (dominance) analysis of base codes looked up through the alphabet index table before they are packed into the k-mer word",
-         "Decides one necessary guard of 'no invalid letter inside a reported k-mer': every looked-up base code is sign-checked before conversion to the unsigned k-mer word in ForEachKmerOf and both KmerOf functions. It does not decide the index's correctness (watermark arithmetic, prefix sums, bucket bounds are value-level).",
+ "C10": ("SSA sign-check (dominance) analysis of base codes looked up through the alphabet index table before they are packed into the k-mer word; strict-guard rule against kMask; linear-form check of the invalid-letter watermark",
+         "Decides one necessary guard of 'no invalid letter inside a reported k-mer': every looked-up base code is sign-checked before conversion to the unsigned k-mer word in ForEachKmerOf and both KmerOf functions. It does not decide the index's correctness (watermark arithmetic, prefix sums, bucket bounds are value-level). Also decides that the largest k-mer is accepted and that the invalid-letter watermark is the letter's position + 1.",
          "alphabet.Index holds -1 for letters outside the alphabet", "DESIGN.md §2.I, §4/C10"),
- "C11": ("must-assign analysis (must-pass over the SSA CFG) of every per-cycle field of Morass in Clear, with the computed cycle state and the Finalise-re-establishes alternative",
-         "Decides that after Clear no per-cycle field (pos, len, fast, chunk, files, _err — computed from the writes of Push/write/Finalise/Pull) keeps a value from the previous cycle on any path: a necessary condition of 'whatever earlier cycles did'. Sortedness, multiset equality and Pos/Len arithmetic are value-level and not decided.",
+ "C11": ("must-assign analysis (must-pass over the SSA CFG) of every per-cycle field of Morass in Clear, with the computed cycle state and the Finalise-re-establishes alternative; join analysis of the in-memory/spilled decision",
+         "Decides that after Clear no per-cycle field (pos, len, fast, chunk, files, _err — computed from the writes of Push/write/Finalise/Pull) keeps a value from the previous cycle on any path: a necessary condition of 'whatever earlier cycles did'. Sortedness, multiset equality and Pos/Len arithmetic are value-level and not decided. Also decides that Finalise's in-memory decision does not read writer-produced state before the join.",
          "API protocol Push* Finalise Pull* Clear", "DESIGN.md §2.K, §4/C11"),
  "C12": ("go-statement join analysis (WaitGroup Add dominates go, deferred Done, Wait dominates the shared-field reads, error slot consulted after the wait) and must-hold lockset dataflow over the SSA CFG",
          "Decides, for every schedule, that Finalise cannot read the run-file list while a background writer started by Push may still be registering or encoding its run, and that files/_err are accessed under their locks in all writer-reachable code. It does not decide absence of every data race nor deadlock freedom of the pool/writable protocol.",
          "sync.WaitGroup/Mutex semantics; Pull and Clear run after Finalise returned", "DESIGN.md §2.L, §4/C12"),
- "C13": ("error-slot discipline on SSA: setErr arguments proven non-nil by dominating tests (sticky), data flow of every TempFile/Encode/Sync/Seek/Decode error to a return or the slot, must-pass of err() before nil returns; dominance of AutoClear/AutoClean tests over every end-of-data branch of Pull",
-         "Decides that a recorded writer error cannot be overwritten by a later success, that no I/O error of the listed operations is dropped, that Push/Finalise consult the slot before returning nil, and that both end-of-data branches of Pull honour AutoClear and AutoClean. It does not decide that delivered values are right after a fault.",
+ "C13": ("error-slot discipline on SSA: setErr arguments proven non-nil by dominating tests (sticky), data flow of every TempFile/Encode/Sync/Seek/Decode error to a return or the slot, must-pass of err() before nil returns; dominance of AutoClear/AutoClean tests over every end-of-data branch of Pull; acquire/register pairing of temporary files on all paths",
+         "Decides that a recorded writer error cannot be overwritten by a later success, that no I/O error of the listed operations is dropped, that Push/Finalise consult the slot before returning nil, and that both end-of-data branches of Pull honour AutoClear and AutoClean. It does not decide that delivered values are right after a fault. Also decides that every created run file is registered or removed on every path.",
          "an error that reaches a return or the slot is reported by a later Push/Finalise/Pull", "DESIGN.md §2.M, §4/C13"),
- "C19": ("multi-instance close analysis (closures started by a go statement inside a loop must close under sync.Once or an atomic-zero guard) and must-hold lockset dataflow for the Promise mailbox with caller-intersection entry locksets",
-         "Decides, for every schedule, that the Processor's result channel cannot be closed by more than one goroutine instance, and that every take/put on the Promise's one-slot mailbox happens under the promise's mutex (so no fulfiller can observe the momentarily borrowed, empty mailbox). Exactly-one-result per operation, Map's partition arithmetic and liveness are not decided.",
+ "C19": ("multi-instance close analysis (closures started by a go statement inside a loop must close under sync.Once or an atomic-zero guard) and must-hold lockset dataflow for the Promise mailbox with caller-intersection entry locksets; send-before-Done ordering across deferred functions; Broadcast-after-put rule",
+         "Decides, for every schedule, that the Processor's result channel cannot be closed by more than one goroutine instance, and that every take/put on the Promise's one-slot mailbox happens under the promise's mutex (so no fulfiller can observe the momentarily borrowed, empty mailbox). Exactly-one-result per operation, Map's partition arithmetic and liveness are not decided. Also decides that no worker sends after its Done and that settling functions broadcast to all waiters.",
          "sync.Mutex/Cond/Once/WaitGroup semantics", "DESIGN.md §2.N/L, §4/C19"),
- "C20": ("append-aliasing analysis on SSA (append on a parameter slice, in-place mutation of the result, parameter handed back) and store-before-error-return reachability in the setters",
-         "Decides that a rejected Exons.Add cannot have touched the receiver's backing array and that SetExons/SetFeatures store into the receiver only after every check has passed — the 'rejected updates leave the previous exon set exactly as it was' clause. Tiling and position/orientation composition are value-level and not decided.",
+ "C20": ("append-aliasing analysis on SSA (append on a parameter slice, in-place mutation of the result, parameter handed back) and store-before-error-return reachability in the setters; freshness of the slice Exons.Add sorts and returns; NotOriented check before orientation products",
+         "Decides that a rejected Exons.Add cannot have touched the receiver's backing array and that SetExons/SetFeatures store into the receiver only after every check has passed — the 'rejected updates leave the previous exon set exactly as it was' clause. Tiling and position/orientation composition are value-level and not decided. Also decides that Exons.Add never sorts or returns the caller's slice and that orientation products skip NotOriented locations.",
          "append reuses spare capacity of its first argument", "DESIGN.md §2.O, §4/C20"),
- "C14": ("polynomial normal form of the q-gram threshold function and role check of its call; SSA branch-polarity analysis of every tube emission and tube retirement in the filter",
-         "Decides two necessary conditions of 'no false negatives': the threshold is exactly Ukkonen's n+1-k(e+1) computed from (match length, word size, error bound), and a tube is emitted exactly when Count >= threshold (inclusive) at all three retirement sites, with no retirement path that skips the comparison. Tube geometry, ticker recycling and diagonal arithmetic — the theorem itself — are value-level and not decided.",
+ "C14": ("polynomial normal form of the q-gram threshold function and role check of its call; SSA branch-polarity analysis of every tube emission and tube retirement in the filter; agreement of the tick period with the tube spacing; per-run re-initialisation of tube state",
+         "Decides two necessary conditions of 'no false negatives': the threshold is exactly Ukkonen's n+1-k(e+1) computed from (match length, word size, error bound), and a tube is emitted exactly when Count >= threshold (inclusive) at all three retirement sites, with no retirement path that skips the comparison. Tube geometry, ticker recycling and diagonal arithmetic — the theorem itself — are value-level and not decided. Also decides that the recycling tick period is the tube spacing and that tube state is fresh per run.",
          "the q-gram lemma; roles of Filter fields are those filter.New assigns", "DESIGN.md §2.J/P, §4/C14"),
- "C15": ("SSA branch-polarity analysis of the only hit emission in the DP kernel (both extents >= minLen, error estimate <= maxDiff, Error assigned the tested value) and wiring of minLen/maxDiff in AlignTraps",
-         "Decides one clause: every emitted hit passed the stated length and identity tests, its Error is the tested value, and the thresholds are the user's minimum hit length and 1 - minimum identity. Score optimality, coordinate bounds and recall of planted repeats are value-level and not decided.",
+ "C15": ("SSA branch-polarity analysis of the only hit emission in the DP kernel (both extents >= minLen, error estimate <= maxDiff, Error assigned the tested value) and wiring of minLen/maxDiff in AlignTraps; per-run re-initialisation of the filter's tube state",
+         "Decides one clause: every emitted hit passed the stated length and identity tests, its Error is the tested value, and the thresholds are the user's minimum hit length and 1 - minimum identity. Score optimality, coordinate bounds and recall of planted repeats are value-level and not decided. Also decides that the filter's tube states are re-made on every call.",
          "the kernel's Hit position fields mean what their names say", "DESIGN.md §2.P, §4/C15"),
- "C17": ("constant-table consistency check over go/types constant values of the built-in alphabet definitions (AST + types)",
-         "Decides, for the seven built-in alphabets, every clause the property states about their *definitions* (distinct ASCII letters, involutive case-preserving pairing closed over the alphabet, 3-minus-index complement rule, gap at index 0) from the constants in the source. It does not decide that the constructors build the tables the definitions describe.",
+ "C17": ("constant-table consistency check over go/types constant values of the built-in alphabet definitions (AST + types); both-directions involution check in NewPairing; case-folding dataflow in newAlphabet",
+         "Decides, for the seven built-in alphabets, every clause the property states about their *definitions* (distinct ASCII letters, involutive case-preserving pairing closed over the alphabet, 3-minus-index complement rule, gap at index 0) from the constants in the source. It does not decide that the constructors build the tables the definitions describe. Also decides two constructor mechanisms: NewPairing tests the involution for both strings, and the case-insensitive table fill uses case-folded strings.",
          "go/types constant evaluation; constructors interpret their arguments positionally", "DESIGN.md §2.J, §4/C17"),
- "C18": ("sibling-table agreement: Encode/Decode switch cases compared per Encoding constant (AST + go/types constants)",
-         "Decides case exhaustiveness and offset agreement of Encode/Decode per encoding (additive constant == subtractive constant, bound+offset == '~', no scale conversion in between): a necessary condition of decode(encode(q)) == q. Value-level arithmetic, probabilities and conversion tables are not decided.",
+ "C18": ("sibling-table agreement: Encode/Decode switch cases compared per Encoding constant (AST + go/types constants); signed-range guard and clamp-exception rules",
+         "Decides case exhaustiveness and offset agreement of Encode/Decode per encoding (additive constant == subtractive constant, bound+offset == '~', no scale conversion in between): a necessary condition of decode(encode(q)) == q. Value-level arithmetic, probabilities and conversion tables are not decided. Also decides that negative Solexa scores receive the offset and that only Illumina1_5 clamps.",
          "the guarded `q += K` / `x - K` shapes are the only offset arithmetic in each case (else UNDECIDED, exit 2)", "DESIGN.md §2.J, §4/C18"),
 }
 
